@@ -43,6 +43,7 @@ def build(tier, seed):
                           'stick': [0, 30, 60][(j // 4) % 3]})
         bounds['long seeded words (>=3 levels per excursion)'] = 'lengths 50..5000, seeds 64*VERIF_SEED..+63 (reported separately)'
     return {
+        'rule_more': 'flag as numpy bool / int; index arrays edited in place by the caller before an equal query; constant series and series of length 1',
         'cases': cases,
         'rule': 'prefix tree of all words over the alphabet up to the length bound (pool case = sub-tree); crossings on every '
                 'word (also constant / all-zero), switched peaks on every word (constant words and words of length 1: the clauses that do not need turning points); x keep_adj_zeros {T,F} x tol '
